@@ -5,8 +5,13 @@
 
    Mutable state is explicit: a [world] holds the current bytes of the one
    stream/file a scenario uses (a BytesIO object or a file on disk), the
-   BytesIO position, a counter of read() calls, and a heap of mutable Python
-   list objects (location = index).  A Content's get_bytes callable is
+   BytesIO position, a counter of read() calls, a heap of mutable Python
+   list objects (location = index), and a read-size oracle: the stream may be
+   an unbuffered pipe / socket / raw device / segmented reader whose read(n)
+   legitimately returns FEWER than n bytes although more follow (only b"" is
+   end of file); w_sizes lists how many bytes the coming read() calls deliver
+   at most (one entry per call, clamped to 1..n; once the list is exhausted
+   reads are full, which is all a regular file or BytesIO ever does).  A Content's get_bytes callable is
    defunctionalised: [Stored cs] is "lambda: cs" over an immutable value,
    [Live ...] is the reader closure over the stream/file, [InList l] is a
    callback that yields the CURRENT contents of the list object at location l
@@ -25,6 +30,7 @@ Definition exn_eqb (a b : exn) : bool :=
   end.
 
 Definition chunk := list N.
+Definition tres := res (list N) exn.         (* as_text(): code points, or what was raised *)
 
 (* ---------------- sources ---------------- *)
 Inductive skind := KBytesIO | KFile.         (* io.BytesIO object | path opened with open(path, "rb") per iteration *)
@@ -33,7 +39,7 @@ Definition seekarg := option (Z * whence).   (* seek_offset=None: no seek *)
 
 Definition loc := nat.
 Definition heap := list (list chunk).
-Record world := { w_data : list N; w_pos : nat; w_reads : nat; w_heap : heap }.
+Record world := { w_data : list N; w_pos : nat; w_reads : nat; w_heap : heap; w_sizes : list nat }.
 
 Definition heap_get (l : loc) (h : heap) : list chunk := nth l h [].
 Fixpoint heap_set (l : loc) (v : list chunk) (h : heap) : heap :=
@@ -45,7 +51,8 @@ Fixpoint heap_set (l : loc) (v : list chunk) (h : heap) : heap :=
 (* list(iterable): a new list object, at a location nothing else refers to *)
 Definition alloc (v : list chunk) (w : world) : loc * world :=
   (length (w_heap w),
-   {| w_data := w_data w; w_pos := w_pos w; w_reads := w_reads w; w_heap := w_heap w ++ [v] |}).
+   {| w_data := w_data w; w_pos := w_pos w; w_reads := w_reads w; w_heap := w_heap w ++ [v];
+      w_sizes := w_sizes w |}).
 
 (* stream.seek(off, whence): the new position, or what it raises.  BytesIO
    refuses a negative absolute offset (ValueError) and clamps a negative
@@ -64,17 +71,23 @@ Definition seek_pos (k : skind) (len : nat) (off : Z) (wh : whence) : res nat ex
 (* stream.read(n) at position pos *)
 Definition read_at (data : list N) (pos n : nat) : chunk := firstn n (skipn pos data).
 
+(* how many bytes the next read(n) hands out at most: n from a stream that always
+   fills the request, else the oracle's next entry clamped to 1..n *)
+Definition next_size (n : nat) (sizes : list nat) : nat :=
+  match sizes with [] => n | s :: _ => Nat.max 1 (Nat.min s n) end.
+
 (* _iter_chunks, content.py:45-48:
        chunk = stream.read(chunk_size)
        while chunk: yield chunk; chunk = stream.read(chunk_size)
+   over a stream whose reads are sized by the oracle (one entry per read() call).
    Result: the chunks, the final position, the number of read() calls. *)
-Fixpoint read_loop (fuel : nat) (data : list N) (pos n : nat) : option (list chunk * nat * nat) :=
+Fixpoint read_loop (fuel : nat) (data : list N) (pos n : nat) (sizes : list nat) : option (list chunk * nat * nat) :=
   match fuel with
   | O => None
   | S f =>
-      match read_at data pos n with
+      match read_at data pos (next_size n sizes) with
       | [] => Some ([], pos, 1)
-      | c => match read_loop f data (pos + length c) n with
+      | c => match read_loop f data (pos + length c) n (tl sizes) with
              | None => None
              | Some (cs, p, k) => Some (c :: cs, p, S k)
              end
@@ -91,13 +104,14 @@ Definition run_reader (k : skind) (n : nat) (sk : seekarg) (w : world) : res (li
   match start with
   | Raised e => (Raised e, w)
   | Ok p =>
-      match read_loop (length (w_data w) - p + 1) (w_data w) p n with
+      match read_loop (length (w_data w) - p + 1) (w_data w) p n (w_sizes w) with
       | None => (Raised OutOfFuel, w)
       | Some (cs, p', r) =>
           (Ok cs, {| w_data := w_data w;
                      w_pos := match k with KBytesIO => p' | KFile => w_pos w end;
                      w_reads := w_reads w + r;
-                     w_heap := w_heap w |})
+                     w_heap := w_heap w;
+                     w_sizes := skipn r (w_sizes w) |})
       end
   end.
 
@@ -218,3 +232,107 @@ Definition content_eq (a b : content) (w : world) : res bool exn * world :=
         end
     end
   else (Ok false, w).
+
+(* ---------------- several readers of ONE Content object ----------------
+   Content.iter_text() returns a generator (_iter_text, content.py:102-110); a
+   consumer may take a few pieces and abandon it, two consumers may advance
+   their generators alternately, the same content may be read again and again.
+   Each generator owns ITS decoder (created when its body starts), walks the
+   chunks in order and flushes once.  One generator: *)
+Record titer (C : codec) := mkIter {
+  ti_dec : dstate C;                 (* the state of this reader's decoder *)
+  ti_rest : list chunk;              (* the chunks it has not been given yet *)
+  ti_acc : list N;                   (* the text it has yielded so far, joined *)
+  ti_end : option (option exn) }.    (* None: suspended; Some None: exhausted; Some (Some e): it raised e *)
+Arguments mkIter {C}. Arguments ti_dec {C}. Arguments ti_rest {C}. Arguments ti_acc {C}. Arguments ti_end {C}.
+
+Definition ti_fresh (C : codec) (chunks : list chunk) : titer C :=
+  {| ti_dec := dinit C; ti_rest := chunks; ti_acc := []; ti_end := None |}.
+
+(* next(generator), the piece appended to what the consumer has collected *)
+Definition ti_step (C : codec) (it : titer C) : titer C :=
+  match ti_end it with
+  | Some _ => it
+  | None =>
+      match ti_rest it with
+      | c :: r =>
+          match feed C (ti_dec it) c with
+          | None => {| ti_dec := ti_dec it; ti_rest := r; ti_acc := ti_acc it; ti_end := Some (Some UnicodeDecodeError) |}
+          | Some (s', out) => {| ti_dec := s'; ti_rest := r; ti_acc := ti_acc it ++ out; ti_end := None |}
+          end
+      | [] =>
+          match flush C (ti_dec it) with
+          | None => {| ti_dec := ti_dec it; ti_rest := []; ti_acc := ti_acc it; ti_end := Some (Some UnicodeDecodeError) |}
+          | Some fin => {| ti_dec := ti_dec it; ti_rest := []; ti_acc := ti_acc it ++ fin; ti_end := Some None |}
+          end
+      end
+  end.
+
+Fixpoint ti_run (C : codec) (k : nat) (it : titer C) : titer C :=
+  match k with O => it | S k' => ti_run C k' (ti_step C it) end.
+
+(* the consumer drains the generator: one next() per remaining chunk and one for the flush *)
+Definition ti_finish (C : codec) (it : titer C) : titer C := ti_run C (S (length (ti_rest it))) it.
+
+(* what a reader that went through the whole generator holds: "".join(pieces), or the exception *)
+Definition ti_result (C : codec) (it : titer C) : tres :=
+  match ti_end it with Some (Some e) => Raised e | _ => Ok (ti_acc it) end.
+
+(* a history of reads on one content: iter_text() (a new reader), next() on reader i,
+   reader i drained, as_text() (a new reader drained at once) *)
+Inductive hop := HNew | HNext (i : nat) | HFinish (i : nat) | HAsText.
+(* what the caller sees: iter_text() returned / raised; no reader i; next() done (the piece is
+   kept by reader i); the complete text reader i collected over its whole life / as_text() *)
+Inductive hres := RNew (e : option exn) | RNoIter | RStepped | RRead (t : tres).
+
+Fixpoint upd {A} (i : nat) (x : A) (l : list A) : list A :=
+  match l, i with
+  | [], _ => []
+  | _ :: r, O => x :: r
+  | y :: r, S i' => y :: upd i' x r
+  end.
+
+Section Hist.
+  Variable I : Type.                       (* a reader's state *)
+  Variable fresh : option I.               (* iter_text(): a new reader, or ValueError (not a text type) *)
+  Variables step finish : I -> I.
+  Variable result : I -> tres.
+  Variable astext : tres.
+  Fixpoint hist (its : list I) (ops : list hop) : list hres :=
+    match ops with
+    | [] => []
+    | HNew :: r =>
+        match fresh with
+        | None => RNew (Some ValueError) :: hist its r
+        | Some f => RNew None :: hist (its ++ [f]) r
+        end
+    | HNext i :: r =>
+        match nth_error its i with
+        | None => RNoIter :: hist its r
+        | Some it => RStepped :: hist (upd i (step it) its) r      (* only reader i changes *)
+        end
+    | HFinish i :: r =>
+        match nth_error its i with
+        | None => RNoIter :: hist its r
+        | Some it => RRead (result (finish it)) :: hist (upd i (finish it) its) r
+        end
+    | HAsText :: r => RRead astext :: hist its r
+    end.
+End Hist.
+
+(* the history on Content(ct, lambda: chunks).  A charset outside the two modelled codecs:
+   codecs.getincrementaldecoder raises LookupError in the generator body - or, for a codec
+   Python knows and this model does not (BOM-detecting UTF-16/UTF-32, utf-8-sig), the case
+   carries [oracle] = bytes.decode(charset) of the joined bytes and every complete read is
+   ASSUMED to return it (sampled extension, see ASSUMPTIONS of the check). *)
+Definition read_history (ct : ctype) (chunks : list chunk) (oracle : option tres) (ops : list hop) : list hres :=
+  if negb (str_eqb (ct_type ct) (sb "text")) then
+    hist unit None (fun x => x) (fun x => x) (fun _ => Raised ValueError) (Raised ValueError) [] ops
+  else match codec_of (declared_charset ct) with
+       | Some C =>
+           hist (titer C) (Some (ti_fresh C chunks)) (ti_step C) (ti_finish C) (ti_result C)
+                (ti_result C (ti_finish C (ti_fresh C chunks))) [] ops
+       | None =>
+           let r := match oracle with Some t => t | None => Raised LookupError end in
+           hist unit (Some tt) (fun x => x) (fun x => x) (fun _ => r) r [] ops
+       end.
